@@ -70,6 +70,9 @@ def rule_tie_and_onset(ctx):
 
 
 def run(ctx):
+    from ..rules import extra as _X3
+    _n = _X3.rule_beat_type_source(ctx, ['partitura.musicanalysis.note_array_to_score', 'partitura.utils.music'], 'C05')
+    ctx.floor('BEAT-TYPE', 'conversions', _n, 2)
     prog = ctx.prog
     A.rule_F4a(ctx, f"{MUSIC}:note_array_from_note_list", "fields", "note_info", 10)
     A.rule_F4a(ctx, f"{MUSIC}:rest_array_from_rest_list", "fields", "rest_info", 9)
